@@ -563,7 +563,7 @@ def run(ctx):
                 raise MachineryError("no initial state recognised in %s" % gname)
             tour = "directed" not in tier    # codegen: shortest paths to every finish class (thorough: and every crash point)
             plist = _paths_for(g, inits, thorough, ctx.seed, tour, (40 if thorough else 10) if tour else 0,
-                               crash_classes=tour or thorough)
+                               crash_classes=True)
             size = calibrate(mode, n)
             for kind, p in plist:
                 steps = g.steps(p)
@@ -601,8 +601,12 @@ def run(ctx):
         jobs = []
         for mode, oname in ([("cache", "O1"), ("cache", "O2"), ("codegen", "O1")] if thorough else [("cache", "O1")]):
             ln = _cache_len(mode, oname)
-            if thorough:
-                offs = list(range(ln))
+            if thorough and (mode, oname) == ("cache", "O1"):
+                offs = list(range(ln))                      # every byte offset
+            elif thorough and mode == "cache":
+                offs = list(range(0, ln, 5)) + [ln - 1]     # another option set: every 5th
+            elif thorough:
+                offs = sorted(set(list(range(0, 16)) + list(range(0, ln, 61)) + [ln - 2, ln - 1]))   # codegen: each trial relinks 4 libraries
             else:
                 offs = sorted(set([0, 1, 2, 3, 10, 11, 12, ln - 1, ln - 2, ln // 2, 4095, 4096, 4097, 8191, 8192, 8193]
                                   + [int(i * ln / 49.0) for i in range(49)]))
@@ -610,7 +614,7 @@ def run(ctx):
             nj = max(1, min(len(offs), procs() * 4))
             for i in range(nj):
                 jobs.append({"mode": mode, "oname": oname, "what": "cache", "offsets": offs[i::nj]})
-        lib_offs = [0, 1, 64, 4096, 8192, -1] if not thorough else sorted(set([0, 1, 63, 64, 65, -1, -2] + list(range(0, 32000, 251))))
+        lib_offs = [0, 1, 64, 4096, 8192, -1] if not thorough else sorted(set([0, 1, 63, 64, 65, -1, -2] + list(range(0, 32000, 997))))
         nj = max(1, min(len(lib_offs), procs()))
         for i in range(nj):
             jobs.append({"mode": "codegen", "oname": "O1", "what": "lib", "offsets": lib_offs[i::nj]})
